@@ -111,9 +111,10 @@ def main(ck):
     else:
         rc, out = ck.run([binp, str(n)], timeout=3000)
         insts = [json.loads(l) for l in out.splitlines() if l.startswith('{"case"')]
-    if rc != 0 or "c03 done" not in out:
+    crashed = rc != 0 or "c03 done" not in out
+    if crashed:
+        # the real code panicked / the harness died: still apply the direct oracle to what was observed before
         ck.broken.append("harness c03 failed rc=%d: %s" % (rc, out[-600:]))
-        return
     if not insts:
         ck.broken.append("harness c03 produced no protocol instance")
         return
@@ -132,6 +133,9 @@ def main(ck):
         ck.violation({"kind": "direct-oracle", "what": f, "case": inst["case"], "op": inst["op"], "history": inst["hist"],
                       "crash": None if im is None else {"steps_applied": im["k"], "torn_log_bytes": im["torn"], "recovery_mutations_before_second_crash": im["sub"]},
                       "steps": inst.get("steps"), "names": inst.get("names"), "old": inst.get("old"), "new": inst.get("new")})
+    if crashed:
+        ck.cov["evaluations"] = nimg
+        return
     # ---- model evaluation ----
     mod = [i for i in insts if modelable(i)]
     shard = 6
